@@ -123,6 +123,15 @@ def cases(ctx, n):
             for t in ('SEC 1\r\n  text\r\n', 'PART A\r\n  SEC 1.\r\n    SUBSEC (a)\r\n      x\r\n', 'DEBATESECTION 1\r\n  SPEECH\r\n    FROM a\r\n    x\r\n',
                       'ITEMS\r\n  ITEM (a)\r\n    x\r\n', 'SCHEDULE\r\n  PARA 1\r\n    x\r\n'):
                 out.append((stages.URIS[0], root, '', t))
+        # speech groups that stop after their FROM line (with and without num, heading, subheading, attributes; alone, first, last):
+        # the schema wants a block after <from>, and nothing in the dict or XML stage would add one
+        for kw in ('SPEECH', 'QUESTION', 'ANSWER', 'SPEECHGROUP'):
+            for head in ('', ' 1', ' 2 - Heading', '.cls', '{refersTo #x}'):
+                for sub in ('', '    SUBHEADING sub\n'):
+                    g = '  %s%s\n%s    FROM THE PRESIDENT\n' % (kw, head, sub)
+                    for doc in ('DEBATESECTION\n' + g, 'DEBATESECTION\n' + g + '  SPEECH\n    FROM b\n    words\n', 'DEBATESECTION\n  SPEECH\n    FROM a\n    words\n' + g,
+                                'DEBATESECTION\n' + g + '  SCENE\n    applause\n'):
+                        out.append((stages.URIS[0], 'debate', '', doc))
         return out + repeat_docs(ctx, max(40, n // 20))
     finally:
         gen.gen_attrs = old
